@@ -20,6 +20,7 @@ at the top-level directory.
  *   
  */
 #include "slu_mt_cdefs.h"
+#include "slu_mt_verif.h"
 
 /* ------------------
    Constants & Macros
@@ -95,6 +96,7 @@ void pcgstrf_SetupSpace(void *work, int_t lwork)
         stack.top2 = lwork;
         stack.array = (void *) work;
         tail_users = 0;
+        SLU_VERIF_EV("StkInit", SLU_VERIF_SELF(), 0, (long) stack.size, (long) stack.used, (long) stack.top1, (long) stack.top2);
     }
 #if ( MACH==PTHREAD )
     pthread_mutex_init ( &stack.lock, NULL);
@@ -131,6 +133,7 @@ static void pcgstrf_TailUsers(int_t incr)
 	    stack.used -= (stack.size - stack.top2);
 	    stack.top2 = stack.size;
 	}
+	SLU_VERIF_EV("StkUsers", SLU_VERIF_SELF(), (long) incr, (long) tail_users, (long) stack.size, (long) stack.used, (long) stack.top1, (long) stack.top2);
     }
 #if ( MACH==PTHREAD ) /* Use pthread ... */
     pthread_mutex_unlock( &stack.lock );
@@ -149,6 +152,7 @@ void *cuser_malloc(int_t bytes, int_t which_end)
     {    
         if ( StackFull(bytes) ) {
             buf = NULL;
+            SLU_VERIF_EV("StkAlloc", SLU_VERIF_SELF(), (long) which_end, (long) bytes, 0, (long) stack.size, (long) stack.used, (long) stack.top1, (long) stack.top2);
             goto end;
         }
 
@@ -160,6 +164,7 @@ void *cuser_malloc(int_t bytes, int_t which_end)
 	    buf = (char*) stack.array + stack.top2;
         }
         stack.used += bytes;
+        SLU_VERIF_EV("StkAlloc", SLU_VERIF_SELF(), (long) which_end, (long) bytes, 1, (long) stack.size, (long) stack.used, (long) stack.top1, (long) stack.top2);
         
      end: ;
     } /* ---- end critical section ---- */
@@ -184,6 +189,7 @@ void cuser_free(int_t bytes, int_t which_end)
         if ( which_end == HEAD ) stack.top1 -= bytes;
         else stack.top2 += bytes;
         stack.used -= bytes;
+        SLU_VERIF_EV("StkFree", SLU_VERIF_SELF(), (long) which_end, (long) bytes, (long) stack.size, (long) stack.used, (long) stack.top1, (long) stack.top2);
     }
 
 #if ( MACH==PTHREAD ) /* Use pthread ... */
@@ -415,6 +421,7 @@ pcgstrf_MemInit(int_t n, int_t annz, superlumt_options_t *superlumt_options,
 	    stack.size = lwork;
 	    stack.top2 = lwork;
 	    tail_users = 0;
+	    SLU_VERIF_EV("StkInit", SLU_VERIF_SELF(), 1, (long) stack.size, (long) stack.used, (long) stack.top1, (long) stack.top2);
 	}
 	
 	lsub  = cexpanders[LSUB].mem  = Lstore->rowind;
@@ -505,6 +512,7 @@ pcgstrf_WorkInit(int_t n, int_t panel_size, int_t **iworkptr, complex **dworkptr
               {
 	        stack.top2 -= extra;
 	        stack.used += extra;
+	        SLU_VERIF_EV("StkAdjust", SLU_VERIF_SELF(), (long) TAIL, (long) extra, (long) stack.size, (long) stack.used, (long) stack.top1, (long) stack.top2);
 	      }
 #if ( MACH==PTHREAD ) /* Use pthread ... */
         pthread_mutex_unlock( &stack.lock );
@@ -694,6 +702,7 @@ void
               {
                 stack.top1 += extra;
                 stack.used += extra;
+                SLU_VERIF_EV("StkAdjust", SLU_VERIF_SELF(), (long) HEAD, (long) extra, (long) stack.size, (long) stack.used, (long) stack.top1, (long) stack.top2);
               }
 #if ( MACH==PTHREAD ) /* Use pthread ... */
       pthread_mutex_unlock( &stack.lock );
@@ -746,6 +755,7 @@ void
                     stack.top1 += extra;   /* Add same amount for USUB */
                     stack.used += extra;
                 }
+                SLU_VERIF_EV("StkAdjust", SLU_VERIF_SELF(), (long) HEAD, (long) (type == UCOL ? 2 * extra : extra), (long) stack.size, (long) stack.used, (long) stack.top1, (long) stack.top2);
 
             } /* if ... */
         } /* else ... */
@@ -807,6 +817,7 @@ pcgstrf_StackCompress(GlobalLU_t *Glu)
     fragment = (char*) ((char*)stack.array + stack.top1 - last);
     stack.used -= (long long int) fragment;
     stack.top1 -= (long long int) fragment;
+    SLU_VERIF_EV("StkAdjust", SLU_VERIF_SELF(), (long) HEAD, -(long) fragment, (long) stack.size, (long) stack.used, (long) stack.top1, (long) stack.top2);
 
     Glu->ucol = ucol;
     Glu->lsub = lsub;
